@@ -6,7 +6,7 @@ parts=json.load(open('/verif/scripts/design_parts.json'))
 descs=json.load(open('/verif/scripts/seed_descriptions.json'))
 frozen=json.load(open('/verif/seeded/round2_frozen.json')) if os.path.exists('/verif/seeded/round2_frozen.json') else {}
 def table(pattern):
-    r2=any(x in pattern for x in ('[cd]','[ef]','[gh]','[ij]'))
+    r2=any(x in pattern for x in ('[cd]','[ef]','[gh]','[ij]','[kl]'))
     t="| seed | change (needs a specific interleaving / fault / history / input to manifest) | "+("frozen checker (before round 2 was read) | " if r2 else "")+"caught by (properties) | rules that fire |\n|---|---|---|---|"+("---|" if r2 else "")+"\n"
     n=d=0
     for f in sorted(glob.glob(pattern)):
@@ -31,6 +31,9 @@ t4,n4,d4=table('/verif/seeded/*/[gh]/meta.json'); f4o=sum(1 for v in frozen.valu
 frozen=json.load(open('/verif/seeded/round5_frozen.json')) if os.path.exists('/verif/seeded/round5_frozen.json') else {}
 frozen={k.split('/')[0]+'/'+{'a':'i','b':'j'}[k.split('/')[1]]:v for k,v in frozen.items()}
 t5,n5,d5=table('/verif/seeded/*/[ij]/meta.json'); f5o=sum(1 for v in frozen.values() if v.get('own')); f5a=sum(1 for v in frozen.values() if v.get('properties')); f5n=len(frozen)
+frozen=json.load(open('/verif/seeded/round6_frozen.json')) if os.path.exists('/verif/seeded/round6_frozen.json') else {}
+frozen={k.split('/')[0]+'/'+{'a':'k','b':'l'}[k.split('/')[1]]:v for k,v in frozen.items()}
+t6,n6,d6=table('/verif/seeded/*/[kl]/meta.json'); f6o=sum(1 for v in frozen.values() if v.get('own')); f6a=sum(1 for v in frozen.values() if v.get('properties')); f6n=len(frozen)
 frozen=json.load(open('/verif/seeded/round2_frozen.json')) if os.path.exists('/verif/seeded/round2_frozen.json') else {}
 head=open('/verif/scripts/design_head.md').read(); tail=open('/verif/scripts/design_tail.md').read()
 r2=open('/verif/scripts/design_round2.md').read() if os.path.exists('/verif/scripts/design_round2.md') else ''
@@ -42,7 +45,9 @@ r4=open('/verif/scripts/design_round4.md').read() if os.path.exists('/verif/scri
 r4=r4.replace('@@SEEDTABLE4@@',t4).replace('@@N4@@',str(n4)).replace('@@D4@@',str(d4)).replace('@@F4O@@',str(f4o)).replace('@@F4A@@',str(f4a)).replace('@@F4N@@',str(f4n))
 r5=open('/verif/scripts/design_round5.md').read() if os.path.exists('/verif/scripts/design_round5.md') else ''
 r5=r5.replace('@@SEEDTABLE5@@',t5).replace('@@N5@@',str(n5)).replace('@@D5@@',str(d5)).replace('@@F5O@@',str(f5o)).replace('@@F5A@@',str(f5a)).replace('@@F5N@@',str(f5n))
-r2=r2+r3+r4+r5
+r6=open('/verif/scripts/design_round6.md').read() if os.path.exists('/verif/scripts/design_round6.md') else ''
+r6=r6.replace('@@SEEDTABLE6@@',t6).replace('@@N6@@',str(n6)).replace('@@D6@@',str(d6)).replace('@@F6O@@',str(f6o)).replace('@@F6A@@',str(f6a)).replace('@@F6N@@',str(f6n))
+r2=r2+r3+r4+r5+r6
 rt=''
 for f in sorted(glob.glob('/verif/evidence/C*.json')):
     e=json.load(open(f)); c=e['coverage']
